@@ -802,6 +802,11 @@ def run(prop, seed, budget, ctx):
             vf, vn, vd = engine_validate.e2e_nocrash(seed, budget)
             for f in vf: hist["P:" + f["why"][0]] += 1
             failures += vf; distinct |= vd; hist["validator-classes(no-crash)"] = vn; dn += vn
+            import std_nocrash
+            sf_, sn_, sd_, sh_ = std_nocrash.run_part(seed, budget)
+            failures += sf_; distinct |= sd_; dn += sn_
+            for k_, v_ in sh_.items(): hist[k_] += v_
+            for f in sf_: hist["P:" + f["why"][0].split(":")[0]] += 1
         extra_rule = "; discriminated unions (annotated discriminator with default / explicit / partial mapping, or inherited from a parent class; Literal discriminator fields, aliased or absent; alternatives with a flattened or pattern-properties field) and a TaggedUnion: " + \
                      {"C13": "dispatch = the mapped alternative alone, unknown / missing tag rejected, serialization adds the key and round-trips",
                       "C03": "input not modified, repeated deserialization stable, no crash",
@@ -849,6 +854,8 @@ def replay(prop, case, ctx):
     if case.get("part") == "deserialize" and "validators" in case:
         import engine_validate
         return engine_validate.replay(prop, case, ctx)
+    if case.get("part") == "std-types":
+        return {k: case[k] for k in ("py", "datum", "coerce", "first", "second", "why")}
     if case.get("part") == "aggregate-oracle":
         return {k: case[k] for k in ("src", "py", "datum", "additional_properties", "why", "info")}
     if case.get("part") == "deser-pass-through":
